@@ -109,6 +109,7 @@ fn check_multiset(b: usize, hs: &[u64], shuffles: usize, stepwise: bool, r: &mut
             }
             r.shuffle(&mut p);
             let mut g = Hll::with_hash(b, bh);
+            beat();
             for x in &p {
                 g.add_hashed(*x);
             }
